@@ -1,32 +1,31 @@
 CONSTANTS
-  Procs = {1, 2}
-  Clients = {"c1"}
+  Procs = {1}
+  Clients = {"c1", "c2"}
   Forms = {"v4"}
   CCs = {"a"}
   SVs = {"bare", "good"}
   Shorts = {}
-  Protos = {"udp"}
-  Questions = {"q1"}
-  Entries = {"msg", "inline"}
+  Protos = {"udp", "tcp"}
+  Questions = {"big1", "big2"}
+  Entries = {"msg", "wire", "inline"}
   Exempts = {}
   Odds = {FALSE}
-  Burst = 2
+  Burst = 3
   StoreCap = 2
-  EntryBurst = 0
-  BigQs = {}
-  MaxOps = 3
+  EntryBurst = 2
+  BigQs = {"big1", "big2"}
+  MaxOps = 14
   MaxPend = 2
   MaxAge = 2
   TickSet = {1}
   CleanSet = {}
-  Atomic = "free"
+  Atomic = "call"
   KeyByForm = TRUE
   ChargeOnReplay = FALSE
   EchoCached = FALSE
   ReuseEvicted = FALSE
   SharedKey = FALSE
   ChargeBeforeFit = FALSE
-SPECIFICATION FairSpec
-INVARIANTS TypeOK
-PROPERTIES CallsComplete JobsReplayed BucketsRefill
+INIT Init
+NEXT Next
 CHECK_DEADLOCK FALSE
